@@ -62,3 +62,21 @@ func VerifNoFingerprint() {
 	vnd.Assert(MakeConfig("") == nil, "empty fingerprint: nil configuration")
 	vnd.Cover(true, "reached")
 }
+
+// VerifPinIsTheLeaf: a peer presents a chain of two certificates; the pin is the digest of one of them.
+// Accepted iff the pinned certificate is the leaf (the chain is not validated: anyone can append any
+// certificate to it).
+func VerifPinIsTheLeaf() {
+	leaf := []byte{0x30, 0x82, 0x01, byte(vnd.Choose("leafCert", 3))}
+	second := []byte{0x30, 0x82, 0x02, byte(vnd.Choose("secondCert", 3))}
+	pinned := leaf
+	pinIsLeaf := vnd.Bool("pinIsLeaf")
+	if !pinIsLeaf {
+		pinned = second
+	}
+	d := sha256.Sum256(pinned)
+	conf := MakeConfig(hex.EncodeToString(d[:]))
+	err := conf.VerifyConnection(tls.ConnectionState{PeerCertificates: []*x509.Certificate{{Raw: leaf}, {Raw: second}}})
+	vnd.Assert((err == nil) == pinIsLeaf, "the connection is accepted iff the pinned certificate is the one the peer presents as its own")
+	vnd.Cover(err != nil, "pinned certificate merely appended to the chain")
+}
